@@ -1344,4 +1344,212 @@ theorem converters_spec : ∀ c ∈ converters, ∀ (src : Src) (k : Int) (out :
          convert_fields tables c src k _ out hst (table_labels_free c hc) table_defaults_no_nan
            (fun m hm => (hsrc m hm).2) h⟩
 
+/-! ## metadata of a whole conversion -/
+
+/-! ### atoms -/
+
+theorem abstractAtom_eval (c : Conv) (src : Src) (m : SrcMap) (x : Atom) (y : RAtom)
+    (h : abstractAtom c x = some y) : evalAtom c src (some m) x = evalRAtom src m y := by
+  cases x with
+  | lit s =>
+    simp only [abstractAtom, Option.some.injEq] at h
+    subst h; rfl
+  | attr o a =>
+    simp only [abstractAtom] at h
+    simp only [evalAtom]
+    split at h
+    · rename_i ho
+      simp only [ho, if_true]
+      split at h
+      · rename_i hl
+        simp only [Option.some.injEq] at h
+        subst h
+        simp [hl, evalRAtom]
+      · rename_i hl
+        simp only [Option.some.injEq] at h
+        subst h
+        simp [hl, evalRAtom]
+    · rename_i ho
+      simp only [ho]
+      split at h
+      · rename_i hl
+        simp only [Option.some.injEq] at h
+        subst h
+        simp [hl, evalRAtom]
+      · cases h
+  | levelName s mm =>
+    simp only [abstractAtom] at h
+    simp only [evalAtom]
+    split at h
+    · rename_i hc
+      simp only [Option.some.injEq] at h
+      subst h
+      simp [hc, evalRAtom]
+    · cases h
+
+/-- an atom that refers to the source *set* (or a literal) does not depend on the current map at all -/
+theorem abstractAtom_eval_setOnly (c : Conv) (src : Src) (cur : Option SrcMap) (m : SrcMap) (x : Atom) (y : RAtom)
+    (h : abstractAtom c x = some y) (hs : setOnly y = true) : evalAtom c src cur x = evalRAtom src m y := by
+  cases x with
+  | lit s =>
+    simp only [abstractAtom, Option.some.injEq] at h
+    subst h; rfl
+  | attr o a =>
+    simp only [abstractAtom] at h
+    simp only [evalAtom]
+    split at h
+    · rename_i ho
+      simp only [ho, if_true]
+      split at h
+      · rename_i hl
+        simp only [Option.some.injEq] at h
+        subst h
+        simp [hl, evalRAtom]
+      · simp only [Option.some.injEq] at h
+        subst h
+        simp [setOnly] at hs
+    · split at h
+      · simp only [Option.some.injEq] at h
+        subst h
+        simp [setOnly] at hs
+      · cases h
+  | levelName s mm =>
+    simp only [abstractAtom] at h
+    split at h
+    · simp only [Option.some.injEq] at h
+      subst h
+      simp [setOnly] at hs
+    · cases h
+
+theorem absAtoms_eval (c : Conv) (src : Src) (m : SrcMap) :
+    ∀ (ps : List Atom) (rs : List RAtom), absAtoms c ps = some rs →
+      evalAtoms c src (some m) ps = evalRAtoms src m rs
+  | [], rs, h => by
+    simp only [absAtoms, Option.some.injEq] at h
+    subst h; rfl
+  | x :: t, rs, h => by
+    simp only [absAtoms] at h
+    split at h
+    · rename_i y ys hy hys
+      simp only [Option.some.injEq] at h
+      subst h
+      simp only [evalAtoms, evalRAtoms, abstractAtom_eval c src m x y hy, absAtoms_eval c src m t ys hys]
+      cases evalRAtom src m y <;> cases evalRAtoms src m ys <;> rfl
+    · cases h
+
+theorem absAtoms_eval_setOnly (c : Conv) (src : Src) (cur : Option SrcMap) (m : SrcMap) :
+    ∀ (ps : List Atom) (rs : List RAtom), absAtoms c ps = some rs → rs.all setOnly = true →
+      evalAtoms c src cur ps = evalRAtoms src m rs
+  | [], rs, h, _ => by
+    simp only [absAtoms, Option.some.injEq] at h
+    subst h; rfl
+  | x :: t, rs, h, hs => by
+    simp only [absAtoms] at h
+    split at h
+    · rename_i y ys hy hys
+      simp only [Option.some.injEq] at h
+      subst h
+      simp only [List.all_cons, Bool.and_eq_true] at hs
+      simp only [evalAtoms, evalRAtoms, abstractAtom_eval_setOnly c src cur m x y hy hs.1,
+        absAtoms_eval_setOnly c src cur m t ys hys hs.2]
+      cases evalRAtom src m y <;> cases evalRAtoms src m ys <;> rfl
+    · cases h
+
+theorem evalRAtoms_append (src : Src) (m : SrcMap) :
+    ∀ (pre want : List RAtom) (w v : String), evalRAtoms src m (pre ++ want) = some w →
+      evalRAtoms src m want = some v → ∃ wp, w = wp ++ v
+  | [], want, w, v, h1, h2 => by
+    simp only [List.nil_append] at h1
+    rw [h1] at h2
+    simp only [Option.some.injEq] at h2
+    exact ⟨"", by simp [h2]⟩
+  | a :: pre, want, w, v, h1, h2 => by
+    simp only [List.cons_append, evalRAtoms] at h1
+    split at h1
+    · rename_i x y hx hy
+      simp only [Option.some.injEq] at h1
+      obtain ⟨wp, hwp⟩ := evalRAtoms_append src m pre want y v hy h2
+      exact ⟨x ++ wp, by rw [← h1, hwp, String.append_assoc]⟩
+    · cases h1
+
+/-! ### the assigned attributes -/
+
+/-- what the attribute list holds for `a`, given the last assignment to it seen so far -/
+def MetaInv (c : Conv) (src : Src) (cur : Option SrcMap) (a : String) (acc : List (String × String)) :
+    Option MetaAssign → Prop
+  | some m0 => ∀ ps, exprAtoms m0.expr = some ps → ∃ w, acc.lookup a = some w ∧ evalAtoms c src cur ps = some w
+  | none => True
+
+theorem evalMeta_atoms (c : Conv) (src : Src) (cur : Option SrcMap) (e : MetaExpr) (v : String) (ps : List Atom)
+    (h : evalMeta c src cur e = some (some v)) (hp : exprAtoms e = some ps) : evalAtoms c src cur ps = some v := by
+  cases e with
+  | fmt qs =>
+    simp only [exprAtoms, Option.some.injEq] at hp
+    subst hp
+    simpa [evalMeta] using h
+  | decoded x =>
+    simp only [exprAtoms, Option.some.injEq] at hp
+    subst hp
+    simp only [evalMeta, Option.some.injEq] at h
+    simp [evalAtoms, h]
+  | encoded qs =>
+    simp only [exprAtoms, Option.some.injEq] at hp
+    subst hp
+    simpa [evalMeta] using h
+  | «opaque» _ => simp [exprAtoms] at hp
+
+theorem metasAt_inv (c : Conv) (src : Src) (cur : Option SrcMap) (lvl a : String) :
+    ∀ (metas : List MetaAssign) (acc me : List (String × String)) (last : Option MetaAssign),
+      metasAt c src cur lvl metas acc = .ok me → MetaInv c src cur a acc last →
+      MetaInv c src cur a me (lastAssign metas lvl a last)
+  | [], acc, me, last, h, hinv => by
+    simp only [metasAt, Except.ok.injEq] at h
+    subst h
+    exact hinv
+  | m :: t, acc, me, last, h, hinv => by
+    simp only [metasAt] at h
+    simp only [lastAssign]
+    by_cases hl : (m.level == lvl) = true
+    · simp only [hl, if_true] at h
+      simp only [hl, Bool.true_and]
+      cases he : evalMeta c src cur m.expr with
+      | none =>
+        simp only [he] at h
+        refine metasAt_inv c src cur lvl a t acc me _ h ?_
+        by_cases ha : (m.attr == a) = true
+        · simp only [ha, if_true]
+          intro ps hps
+          cases hm : m.expr <;> simp [hm, evalMeta, exprAtoms] at he hps
+        · have ha' : (m.attr == a) = false := by simpa using ha
+          simp only [ha']
+          exact hinv
+      | some ov =>
+        cases ov with
+        | none => simp [he] at h
+        | some v =>
+          simp only [he] at h
+          refine metasAt_inv c src cur lvl a t _ me _ h ?_
+          by_cases ha : (m.attr == a) = true
+          · have hae : m.attr = a := by simpa using ha
+            simp only [ha, if_true]
+            intro ps hps
+            refine ⟨v, ?_, evalMeta_atoms c src cur m.expr v ps he hps⟩
+            rw [hae]
+            exact lookup_cons_eq a a v acc (by simp)
+          · have ha' : (m.attr == a) = false := by simpa using ha
+            have ha2 : (a == m.attr) = false := by
+              have : m.attr ≠ a := by simpa using ha'
+              simpa using (fun e : a = m.attr => this e.symm)
+            simp only [ha']
+            cases last with
+            | none => trivial
+            | some m0 =>
+              intro ps hps
+              obtain ⟨w, hw, he'⟩ := hinv ps hps
+              exact ⟨w, by rw [lookup_cons_ne a m.attr v acc ha2]; exact hw, he'⟩
+    · have hl' : (m.level == lvl) = false := by simpa using hl
+      simp only [hl'] at h
+      simp only [hl', Bool.false_and]
+      exact metasAt_inv c src cur lvl a t acc me last h hinv
+
 end Reamber.Convert
